@@ -48,24 +48,27 @@ class BufferModel:
 
 @register
 class OpenForWriting(Contract):
-  """open(path, 'w'): the returned file's buffer is empty -- for a new file and
-  for an existing one (overwrite replaces the whole content)."""
+  """open(path, 'w'): the returned file's buffer is empty AND positioned at 0 -- for
+  a new file and for an existing one whose shared buffer an earlier, never closed
+  handle left at ANY position (overwrite replaces the whole content; a write that
+  started at the stale position would pad the gap with NULs)."""
   prop = 'C05'
   target = f'{FS}:MemoryFileSystem.open'
   raises = {IsADirectoryError: (), FileNotFoundError: ()}
-  variants = ('existing', 'new')
+  variants = ('existing', 'new', 'existing-read')
 
   def inputs(self, b):
     self_ = SObj(fs.MemoryFileSystem, {'_prefix': '/mem/', '_root': SAny('root')}, name='self')
-    self._buf = SObj(BufferModel, {'content': b.str('old_content'), 'pos': 0}, name='buffer')
+    self._buf = SObj(BufferModel, {'content': b.str('old_content'), 'pos': b.int('old_pos', lo=0)}, name='buffer')
     self._file = SObj(fs.MemoryFile, {'_buffer': self._buf, '_pos': 0}, name='file')
-    return dict(self=self_, path=b.str('path'), mode='w'), {}
+    self._old_content = self._buf.fields['content']
+    return dict(self=self_, path=b.str('path'), mode='r' if self.variant == 'existing-read' else 'w'), {}
 
   def setup_policy(self, policy):
     me = self
 
     def locate(interp, frame, args, kwargs):
-      return me._file if me.variant == 'existing' else None
+      return me._file if me.variant != 'new' else None
     policy.contracts[f'{FS}:MemoryFileSystem._locate'] = locate
 
     def parent_and_name(interp, frame, args, kwargs):
@@ -90,6 +93,10 @@ class OpenForWriting(Contract):
             buf.fields['content'] = SAny('truncated')
           return size
         if name == 'seek':
+          whence = interp.resolve(args[2]) if len(args) > 2 else 0
+          if not (I.is_concrete(whence) and whence == 0):
+            buf.fields['pos'] = SAny('pos-after-relative-seek')
+            return buf.fields['pos']
           buf.fields['pos'] = args[1]
           return args[1]
         return SAny(name + '()')
@@ -106,14 +113,28 @@ class OpenForWriting(Contract):
             f'{FS}:File.__init__')
 
   def ensures_buffer_is_empty(self, result):
+    if self.variant == 'existing-read':
+      # reading: the content is the one that was there
+      return result._buffer.content is self._old_content
     return result._buffer.content == ''
+
+  def ensures_starts_at_position_zero(self, result):
+    # writing and reading both start at 0, wherever an earlier handle left the buffer
+    return result._buffer.pos == 0
 
   def replay(self, obligation, m):
     pg.io.writefile('/mem/c05_replay_x.txt', 'a long first content')
     pg.io.writefile('/mem/c05_replay_x.txt', 'short')
     got = pg.io.readfile('/mem/c05_replay_x.txt')
-    return dict(outcome='reproduced' if got != 'short' else 'not-reproduced',
-                detail=f'write "a long first content", then "short"; read back {got!r}')
+    # an earlier handle that was read and never closed leaves the shared buffer at its end
+    pg.io.writefile('/mem/c05_replay_y.txt', 'first content')
+    pg.io.open('/mem/c05_replay_y.txt').read()
+    pg.io.writefile('/mem/c05_replay_y.txt', 'second')
+    got2 = pg.io.readfile('/mem/c05_replay_y.txt')
+    bad = got != 'short' or got2 != 'second'
+    return dict(outcome='reproduced' if bad else 'not-reproduced',
+                detail=f'write "a long first content", then "short"; read back {got!r}; '
+                       f'write, read through a handle left open, overwrite with "second"; read back {got2!r}')
 
 
 # ---------------------------------------------------------------------------
